@@ -590,7 +590,8 @@ def check(run, pid, module, theorems, replay=None, translated=None):
         # theorems about generated code translated from its templates (strengthening tie; the L1 / L2 runs below decide anyway)
         from . import libcommon
         libcommon.regen_imp(run)
-        run.prove(translated[0], translated[1], strengthening=True)
+        for mod, ths in (translated if isinstance(translated, list) else [translated]):
+            run.prove(mod, ths, strengthening=True)
     run_l1(run, pid, rng, 1500 if thorough else 200)
     c = build_corpus(run, thorough)
     try:
